@@ -849,6 +849,7 @@ def install(eng):
                 v = z3.StringVal(v)
             if not (is_z3(v) and z3.is_string(v)):
                 v = z3.String(uid('text'))       # a text the model knows nothing about (str() of an untracked value)
+            eng.trusted_used.add('text stream: a TextIO object is the sequence of the strings written to it, in order (write only); modelled in pyvc/builtins.py')
             nl = v_append(f['log'], v)
             nl.ekind = f['log'].ekind
             f['log'] = nl
@@ -1276,6 +1277,7 @@ def install(eng):
     @reg('np.issubdtype')
     @reg('numpy.issubdtype')
     def _issubdtype(eng, st, args, kw, node):
+        eng.assumptions_used.add('np.issubdtype(dtype, np.integer / np.floating): uninterpreted predicates of the dtype; an array is abstracted to the sequence of its rows and its dtype')
         if args[1] == 'np.integer':
             return one(st, _NP_INT(to_int(args[0])))
         if args[1] == 'np.floating':
